@@ -7,6 +7,7 @@ processing order of the ready sets that only permutes them (`OrdOK`), every reac
 -/
 import Arca.Proofs.LoopDag
 import Arca.Proofs.LoopDagCex
+import Arca.Proofs.DgraphExt
 
 namespace Arca.Props.C02
 open Arca.Model
@@ -56,5 +57,36 @@ theorem data_model_holds_resolved_outputs (P : Prepared) (fns : Fns) (ord : Orde
 
 /-- non-vacuity: the well-formedness hypothesis is satisfiable by a workflow with stage outputs and a group node -/
 example : Cex.P2.WF := Cex.P2_wf
+
+/--
+The tie of the graph model to the real library.  `arcadrv dgraph` compares go.arcalot.io/dgraph with the handle layer
+`HGraph` (Model/DgraphExt.lean: the core model plus `Remove` / `Disconnect*`, which the engine never calls).  On every graph that
+is built with the core operations only - in any order, with any arguments, successful or not - that layer computes exactly
+`Graph.addNode` / `Graph.connect` / `Graph.resolve` (the other operations are the core functions themselves), so a run of the
+differential check without disagreement is a check of the model the theorems above are about.
+-/
+theorem dgraph_check_covers_core_model (g : Graph String) (hb : g.Built) :
+    (∀ id, (HGraph.ofGraph g).addNode id = liftG (g.addNode id)) ∧
+    (∀ src dst d, (HGraph.ofGraph g).connect src dst d = liftG (g.connect src dst d)) ∧
+    (∀ id st, (HGraph.ofGraph g).resolve id st = liftG (g.resolve id st)) :=
+  HGraph.agrees_on_built hb
+
+/-- non-vacuity: a graph with a resolved node, an obviated entry and a ready dependent is `Built` -/
+example : ∃ g : Graph Nat, g.Built ∧ g.statusOf 0 = some St.resolved ∧ g.ready = [2] ∧
+    (g.find? 2).map (·.out) = some [(1, Dep.obv)] ∧ (g.find? 2).map (·.res) = some [(0, Dep.or)] := by
+  have h0 : (Graph.empty : Graph Nat).Built := .empty
+  have h1 := h0.addNode (id := 0) (g' := ⟨[⟨0, .waiting, [], []⟩], [], []⟩) rfl
+  have h2 := h1.addNode (id := 1) (g' := ⟨[⟨0, .waiting, [], []⟩, ⟨1, .waiting, [], []⟩], [], []⟩) rfl
+  have h3 := h2.addNode (id := 2)
+    (g' := ⟨[⟨0, .waiting, [], []⟩, ⟨1, .waiting, [], []⟩, ⟨2, .waiting, [], []⟩], [], []⟩) rfl
+  have h4 := h3.connect (src := 0) (dst := 2) (d := .or)
+    (g' := ⟨[⟨0, .waiting, [], []⟩, ⟨1, .waiting, [], []⟩, ⟨2, .waiting, [(0, .or)], []⟩], [(0, 2, .or)], []⟩) rfl
+  have h5 := h4.connect (src := 1) (dst := 2) (d := .or)
+    (g' := ⟨[⟨0, .waiting, [], []⟩, ⟨1, .waiting, [], []⟩, ⟨2, .waiting, [(0, .or), (1, .or)], []⟩],
+      [(0, 2, .or), (1, 2, .or)], []⟩) rfl
+  have h6 := h5.resolve (id := 0) (st := .resolved)
+    (g' := ⟨[⟨0, .resolved, [], []⟩, ⟨1, .waiting, [], []⟩, ⟨2, .waiting, [(1, .obv)], [(0, .or)]⟩],
+      [(0, 2, .or), (1, 2, .or)], [2]⟩) rfl
+  exact ⟨_, h6, by decide⟩
 
 end Arca.Props.C02
